@@ -250,6 +250,40 @@ def const(ctx: Any) -> List[Ob]:
     reread = [n for n in cfgg.nodes if n.kind == 'stmt' and n.ast in now_defs]
     after = all(any(cfgg.dominates(w, r) for r in reread) for w in wait_nodes)
     obs.append(ob(R, g, 'now = current_time_millis()', 'the time compared with the next probe time is re-read from the clock after every wait (the wait returns early on any new record; pretending the interval elapsed would fire the probes back to back)', fresh and after and bool(wait_nodes), '' if fresh else 'the clock value is synthesised: ' + '; '.join(norm(st)[:60] for st in now_defs if not (isinstance(st.value, ast.Call) and call_name(st.value) == 'current_time_millis'))))
+    # a probe goes out only when a freshly read clock has reached the next-probe time: every probe send is reached only through
+    # the `due` edge of the spacing test, with no wait between that edge and the send (a wait ends early on any new record, so
+    # falling through from the wait to the send would fire the probes back to back)
+    def nsym(x: ast.AST) -> Optional[str]:
+        if isinstance(x, ast.Name):
+            return 'NEXT' if x.id == roles['next_time'] else ('NOW' if x.id == roles['now'] else None)
+        return None
+
+    spacing = []
+    for t in cfgg.nodes:
+        if t.kind == 'test' and t.ast is not None:
+            try:
+                c_ = lf.comparison(prog, g.module, t.ast, nsym)
+            except (lf.NotLinear, KeyError):
+                continue
+            if lf.same_cmp(c_, lf.parse_cmp('NOW - NEXT < 0')):
+                spacing.append((t, False))
+            elif lf.same_cmp(c_, lf.parse_cmp('NEXT - NOW <= 0')):
+                spacing.append((t, True))
+    probe_sends = [n for n in cfgg.nodes if any(call_name(c) == 'async_send' for c in n.calls())]
+    sp_ok, sp_why = bool(spacing) and bool(probe_sends), '' if spacing else 'no test of the clock against the next-probe time'
+    for S_ in probe_sends:
+        hit = [(t, due) for t, due in spacing if cfgg.only_through_edge(t, due, S_)]
+        if not hit:
+            sp_ok, sp_why = False, f'the probe at line {S_.line} can be reached without the clock having been found at or past the next-probe time'
+            continue
+        t, due = hit[0]
+        for s2, lab in t.succ:
+            if lab != due:
+                continue
+            for w_ in wait_nodes:
+                if (s2 is w_ or cfgg.path_avoiding(s2, lambda n: n is w_, lambda n: n is t, skip_start=False) is not None) and cfgg.path_avoiding(w_, lambda n: n is S_, lambda n: n is t) is not None:
+                    sp_ok, sp_why = False, f'a wait (line {w_.line}) lies between the spacing test and the probe at line {S_.line}'
+    obs.append(ob(R, g, spacing[0][0].ast if spacing else 'if now < next_time', 'a probe is sent only when the clock, read after the last wait, has reached the next-probe time (an early wake-up goes back to waiting)', sp_ok, sp_why))
     b = zc.methods['_async_broadcast_service']
     sl = [c for c in walk_local_ordered(b.node) if isinstance(c, ast.Call) and call_name(c) == 'sleep']
     oks = len(sl) == 1 and isinstance(sl[0].args[0], ast.Call) and call_name(sl[0].args[0]) == 'millis_to_seconds' and norm(sl[0].args[0].args[0]) == b.params[2]
@@ -285,6 +319,19 @@ def unique(ctx: Any) -> List[Ob]:
     obs.append(ob(R, add, tests[0].ast if tests else 'if info.key in self._services', 'a name already registered (compared on the lower-cased key) is rejected before anything is stored', good and all(cfg.dominated_by_any(i, tests) for i in ins)))
     rz = [n for n in cfg.nodes if n.kind == 'raise']
     obs.append(ob(R, add, rz[0].ast if rz else 'raise', 'the rejection is ServiceNameAlreadyRegistered', any('ServiceNameAlreadyRegistered' in norm(n.ast) for n in rz)))
+    # the conflict check hands the service type to the cache as the user spelled it: the cache methods it calls must lower-case
+    # the name before they index (the C05.KEYS obligations restricted to what the probe loop calls)
+    from .c05 import cache_methods_reached, keys as c05_keys
+
+    called = cache_methods_reached(ctx, [prog.cls(ZC).methods['async_check_service']])
+    if not called:
+        raise AnalysisError('anchor vanished: the conflict check calls no cache method')
+    extra = [o for o in c05_keys.fn(ctx) if str(o.function) in called]
+    for o in extra:
+        o.rule = R
+    if not extra:
+        raise AnalysisError(f'anchor vanished: no key obligation for the cache methods the conflict check calls ({sorted(called)})')
+    obs.extend(extra)
     return obs
 
 
